@@ -1,2 +1,49 @@
-(* Spec/RegionsSpec.v — specification-level definitions. *)
+(* Spec/RegionsSpec.v — specification-level definitions for C16. *)
+From Coq Require Import Sorting.Sorted.
 From Bio Require Import Base.
+From Bio.Model Require Import Regions.
+Open Scope Z_scope.
+
+(* interval x covers position i:  starts[x] <= i < ends[x] *)
+Definition covers (starts ends : list Z) (i : Z) (x : nat) : bool :=
+  (nth x starts 0 <=? i) && (i <? nth x ends 0).
+
+(* the property's answer: the ascending list of the serial numbers that cover i *)
+Definition covering (starts ends : list Z) (i : Z) : list nat :=
+  filter (covers starts ends i) (seq 0 (length starts)).
+
+(* the postcondition of sort.Slice(events, eventLess): no later element is less
+   than an earlier one *)
+Definition ev_le (a b : event) : Prop := event_less b a = false.
+Definition sorted_events (l : list event) : Prop := StronglySorted ev_le l.
+
+Definition strictly_ascending (l : list Z) : Prop := StronglySorted Z.lt l.
+Definition asc (l : list nat) : Prop := StronglySorted lt l.
+
+(* the map updates of a run of events *)
+Definition step_set (idxs : list nat) (e : event) : list nat :=
+  if e_start e then set_add (e_idx e) idxs else set_remove (e_idx e) idxs.
+Definition apply_events (evs : list event) (idxs : list nat) : list nat :=
+  fold_left step_set evs idxs.
+
+(* what At computes by binary search, as a linear scan: the index set of the last
+   breakpoint <= x ([cur] when there is none) *)
+Fixpoint lookup (ix : index) (x : Z) (cur : list nat) : list nat :=
+  match ix with
+  | [] => cur
+  | iv :: r => if fst iv <=? x then lookup r x (snd iv) else cur
+  end.
+
+(* number of leading breakpoints <= x *)
+Fixpoint rank (ix : index) (x : Z) : nat :=
+  match ix with
+  | [] => O
+  | iv :: r => if fst iv <=? x then S (rank r x) else O
+  end.
+
+(* is x active after the events, when its initial state is b *)
+Fixpoint status (y : nat) (evs : list event) (b : bool) : bool :=
+  match evs with
+  | [] => b
+  | e :: r => status y r (if (e_idx e =? y)%nat then e_start e else b)
+  end.
